@@ -233,7 +233,14 @@ class Network(Module):
             )
 
         # Convert comp_edges to the index format required for `jax.sparse` solvers.
-        n_nodes, data_inds, indices, indptr = comp_edges_to_indices(self._comp_edges)
+        # The number of nodes is passed explicitly because compartments of
+        # single-compartment cells have no edges.
+        n_nodes = int(self.cumsum_ncomp[-1]) + int(
+            self._cumsum_nbranchpoints_per_cell[-1]
+        )
+        n_nodes, data_inds, indices, indptr = comp_edges_to_indices(
+            self._comp_edges, n_nodes=n_nodes
+        )
         self._n_nodes = n_nodes
         self._data_inds = data_inds
         self._indices_jax_spsolve = indices
